@@ -280,6 +280,7 @@ def _exec(kind):
         conn = r.term if base_tag(r.tag) == "Conn" else L.fn("cursor_conn", L.V, L.V)(r.term)
         ip.st.effects = L.seq_append(ip.st.effects, L.mk_tuple([as_v(PyC(kind)), conn, as_v(a[0]), as_v(a[1]) if len(a) > 1 else L.NONE]))
         ip.st.last_exec = (a[0], a[1] if len(a) > 1 else None)
+        ip.st.exec_log = getattr(ip.st, "exec_log", []) + [a[0]]
         return ZV(L.fresh("cursor"), "Cursor")
     return f
 
@@ -409,3 +410,18 @@ def _last_effect2(ip, a, kw):
 
 
 R.INLINE_CTORS["monkeytype.db.sqlite:SQLiteStore"] = "SQLiteStore"
+
+
+@spec("executed")
+def _executed(ip, a, kw):
+    """executed(k): text of the k-th SQL statement executed on this path (ghost)."""
+    log = getattr(ip.st, "exec_log", [])
+    k = a[0].value
+    if k >= len(log):
+        return PyC("")
+    return log[k]
+
+
+@spec("n_executed")
+def _n_executed(ip, a, kw):
+    return PyC(len(getattr(ip.st, "exec_log", [])))
